@@ -5,7 +5,13 @@
  * Built with -fsanitize=address,undefined: any memory fault aborts the process,
  * which the driver records as CRASH for that case.
  */
+/* C16: hostlist_uniq/hostlist_sort call libc qsort; the array as qsort left it is recorded so
+ * that the model can take it as its sort oracle (the call itself goes to the real qsort) */
+#include <stdlib.h>
+static void hl_qsort_hook(void *, size_t, size_t, int (*)(const void *, const void *));
+#define qsort hl_qsort_hook
 #include "src/common/hostlist.c"
+#undef qsort
 
 #include <stdint.h>
 
